@@ -106,6 +106,41 @@ def check(run, repo):
                               'activation quantity is not transition state minus %s: %s'
                               % ('products' if rev else 'reactants', show(got, 200)), owner.module, fn)
                     n += 1
+        # 3b. the same law for the values with units (J/mol): state value = sum nu_i * species value, change = final
+        #     minus initial, under every option the getter accepts (zero-point energy for E)
+        Rj = D.sym('kb') * D.sym('Na')
+        for Xd, Xn, energy in (('E', 'EoRT', True), ('H', 'HoRT', True), ('G', 'GoRT', True), ('U', 'UoRT', True),
+                               ('F', 'FoRT', True), ('S', 'SoR', False), ('Cp', 'CpoR', False), ('Cv', 'CvoR', False)):
+            mname = 'get_%s_state' % Xd
+            if repo.find_method(ci, mname, missing_ok=True) is None:
+                continue
+            owner, fn = repo.find_method(ci, mname)
+            units = 'J/mol' if energy else 'J/mol/K'
+            fac = Rj * T if energy else Rj
+            for zpe in ((False, True) if Xd == 'E' else (None,)):
+                opt = {} if zpe is None else {'include_ZPE': zpe}
+                for st, which in (('reactants', 'reactants'), ('TS', 'transition_state')):
+                    got = I.call_method(rxn, mname, [], dict(kw, state=st, units=units, **opt))
+                    kwe = dict(kw, include_ZPE=bool(zpe)) if Xd == 'E' else kw
+                    want = I.binop('*', expected_state(I, rxn, which, 'get_' + Xn, kwe), fac)
+                    run.check(same(got, want), 'REF.state', '%s.%s' % (cname, mname),
+                              'units state:%s%s' % (st, '' if zpe is None else ' include_ZPE=%s' % zpe),
+                              'state quantity in %s is not the stoichiometry-weighted sum of the species values '
+                              'under the same options: %s' % (units, show(got, 200)), owner.module, fn)
+                    n += 1
+                dname = 'get_delta_' + Xd
+                if repo.find_method(ci, dname, missing_ok=True) is None:
+                    continue
+                owner, fn = repo.find_method(ci, dname)
+                for rev, act in ((False, False), (True, True)):
+                    got = I.call_method(rxn, dname, [], dict(kw, rev=rev, act=act, units=units, **opt))
+                    kwe = dict(kw, include_ZPE=bool(zpe)) if Xd == 'E' else kw
+                    want = I.binop('*', expected_delta(I, rxn, 'get_' + Xn, kwe, rev, act), fac)
+                    run.check(same(got, want), 'REF.delta', '%s.%s' % (cname, dname),
+                              'units rev=%s act=%s%s' % (rev, act, '' if zpe is None else ' include_ZPE=%s' % zpe),
+                              'change in %s is not final minus initial under the same options: %s'
+                              % (units, show(got, 200)), owner.module, fn)
+                    n += 1
         # 4. equilibrium constant
         owner, fn = repo.find_method(ci, 'get_Keq')
         run.fn(owner.qual + '.get_Keq')
